@@ -1,17 +1,20 @@
+\* quick: conforming server (RFC 8555 transitions only), every operation, 4 replies, 3 environment steps
 SPECIFICATION Spec
 CONSTANTS
   OpSet <- AllOps
   Bundles = {TRUE, FALSE}
   MaxCalls = 1
   MaxReq = 4
-  MaxEnv = 2
-  Shapes <- AllShapes
+  MaxEnv = 3
+  Shapes <- CoreShapes
   RetrySet = {0, 3}
   Budget = 1
-  Malformed = TRUE
-  CertKinds <- AllCerts
+  Malformed = FALSE
+  CertKinds <- FewCerts
   AltSet = {0, 2}
   InitStates <- InitRFC
+  CallOK <- AnyCall
+  EnvOK <- AnyEnv
   FixNegRA = FALSE
   Mut = "none"
 VIEW MCView
